@@ -29,6 +29,7 @@ type genOpts struct {
 	FailingReqs  bool // requests that are expected to fail
 	ColdStart    bool
 	NoUpdates    bool
+	ExclHeavy    bool // many Guaranteed whole-CPU containers in ordinary namespaces
 	PinAlways    bool // pinCPU/pinMemory always on
 	NoHideHT     bool
 	Topo         vfkit.TopoOpts
@@ -142,6 +143,10 @@ func genPod(t *rapid.T, o genOpts, ctrNames []string) *hcPodSpec {
 	if o.FillPools {
 		p.QoS = rapid.SampledFrom([]string{"guaranteed", "guaranteed", "burstable", "burstable", "besteffort"}).Draw(t, "qosFill")
 	}
+	if o.ExclHeavy && rapid.IntRange(0, 3).Draw(t, "exclPod") != 0 {
+		p.QoS = "guaranteed"
+		p.Namespace = rapid.SampledFrom([]string{"default", "prod", "dev"}).Draw(t, "exclNs")
+	}
 	nann := rapid.SampledFrom([]int{0, 0, 1, 1, 2, 3}).Draw(t, "nann")
 	for i := 0; i < nann; i++ {
 		a := rapid.SampledFrom(taAnnotations).Draw(t, "ann")
@@ -185,6 +190,12 @@ func genCtr(t *rapid.T, o genOpts, topo *vfkit.Topo, qos string, name string) *h
 		}
 		if o.FillPools && rapid.Bool().Draw(t, "fillFraction") {
 			c.MilliCPU = int64(rapid.SampledFrom([]int{300, 600, 900, 950, 1200, 1900}).Draw(t, "fill"))
+		}
+		if o.ExclHeavy && rapid.IntRange(0, 3).Draw(t, "exclCtr") != 0 {
+			c.MilliCPU = int64(rapid.SampledFrom([]int{1000, 1000, 1000, 2000, 1500, 1250, 3000}).Draw(t, "excl"))
+			for c.MilliCPU > int64(maxCPUs)*500 && c.MilliCPU > 1000 {
+				c.MilliCPU -= 1000
+			}
 		}
 		c.LimitCPU = c.MilliCPU
 	case "burstable":
